@@ -9,6 +9,7 @@ SCEN = {  # the harness scenarios as histories of the model: the environment's p
     "calls-in-flight": "p_connect ++ [LNewInvoke; LNewInvoke; LG 0 GA; LG 0 GA; LG 0 GA; LG 0 (GAHand true); LG 1 GA; LG 1 GA; LNewClose; LClose 0 true]",
     "inbound-requests-with-slow-handlers": "p_connect ++ [LNet 0; LHand 0 (Some true); LNet 0; LHand 0 (Some true); LNewClose; LClose 0 true]",
     "reconnect-in-progress": "[LLc; LRt true; LRt true; LDial false; LRt true; LRt true; LLc; LNewClose]",
+    "reconnect-after-several-failures": "[LLc; LRt true; LRt true; LDial false; LRt true; LRt true; LLc; LTimer; LRt true; LRt true; LDial false; LRt true; LRt true; LNewClose]",
     "inbound-burst": "p_connect ++ [LNet 0; LHand 0 (Some true); LHandlerRet 0 true; LNet 0; LHand 0 (Some false); LNet 0; LNewClose; LClose 0 true]",
     "concurrent-close": "p_connect ++ [LNewClose; LNewClose; LNewClose; LClose 0 true; LClose 1 true; LClose 2 true; LClose 1 true]",
     "close-right-after-dial": "[LLc; LRt true; LRt true; LNewClose; LClose 0 true; LDial true]",
@@ -17,7 +18,7 @@ SCEN = {  # the harness scenarios as histories of the model: the environment's p
     "peer-closed-first": "p_connect ++ [LSockDie 0; LRp 0; LWpCwp 0; LWpLock 0; LWpRel 0 true; LLc; LRtFired; LRt true; LRt true; LDial false; LNewClose]",
 }
 CFG_ORDER = ["invoke_nil", "handler_nil", "rp_cconn", "rp_wdone", "wr_wdone", "wp_sock", "wp_cc_sock", "inv_connctx", "close_again", "csm_final"]
-STRUCT = ["rt_unlock_before_close", "wg_add_before_go"]
+STRUCT = ["rt_unlock_before_close", "wg_add_before_go", "rt_backoff_ctx"]
 ASSUMPTIONS = ["'bounded' is observed as 3 s (6 s before a hang is declared); goroutines are counted from a stack dump"]
 FILES = ["root/fake_test.go", "root/c16_test.go", "root/c07_test.go", "root/peers_test.go", "root/c18_test.go", "root/c06_test.go", "root/session_test.go", "root/c01_test.go", "root/c14_test.go", "root/c09_test.go"]
 RW = {"server.go": [(r"\btransport\.NewServerTransport\(", "vNewServerTransport(")],
